@@ -16,15 +16,17 @@ fn entry(i: usize) -> (String, String) {
 }
 
 fn legend_doc(diagram: &str, header: &str, entries: &[usize], lead: bool, trailing: usize) -> (String, Vec<(String, String)>) {
+    // lead == true now selects CRLF line endings for the whole document (entries always start at column 0)
+    if lead {
+        let (lf, rules) = legend_doc(diagram, header, entries, false, trailing);
+        return (lf.replace('\n', "\r\n"), rules);
+    }
     let mut s = String::from(diagram);
     s.push_str(header);
     let mut rules = vec![];
     for e in entries {
         let (n, d) = entry(*e);
         s.push('\n');
-        if lead {
-            s.push_str("  ");
-        }
         s.push_str(&format!("{} = {{{}}}", n, d));
         rules.push((n, d));
     }
@@ -57,7 +59,7 @@ fn check_legend(cx: &mut Cx, case: &Case) {
         s0,
         rules.iter().map(|(n, dd)| format!(".svgbob .{}{{ {} }}", n, dd)).collect::<Vec<_>>().join("\n")
     );
-    let got = d.style.clone().unwrap_or_default();
+    let got = d.style.clone().unwrap_or_default().replace("\r\n", "\n").replace('\r', "\n");
     if got != want_style {
         let tail = |t: &str| t.chars().skip(s0.chars().count().saturating_sub(10)).collect::<String>();
         cx.fail(
@@ -252,7 +254,7 @@ impl Prop for C16 {
     }
     fn rule(&self) -> &'static str {
         "legend: header in {'# Legend:', '  # Legend:  '} x all sequences of up to 2 (thorough 3) entries from 20 (4 identifiers x 5 declaration strings with spaces, ;:#-.,() quotes and a newline) \
-         plus chains of 4, 5, 6 entries, all starting at column 0 (the grammar, like the statement, only accepts entries that start a line) x 0..2 trailing blank lines x {no diagram, a box, text} above: the style element is the built-in sheet followed in order by '.svgbob .name{ decls }' rules, \
+         plus chains of 4, 5, 6 entries, all starting at column 0 (the grammar, like the statement, only accepts entries that start a line) x {LF, CRLF} x 0..2 trailing blank lines x {no diagram, a box, text} above: the style element is the built-in sheet followed in order by '.svgbob .name{ decls }' rules, \
          and canvas and elements equal the diagram alone. tags: 5 shapes (sharp box, rounded box, circle, box in box, box in circle) x 5 tags x every position of the page grid where the tag fits on blanks \
          x {alone, with a word beside it}: inside a shape's bounding box the innermost rect/circle gains exactly the names and nothing else changes and the tag is gone; outside every bounding box it stays text. \
          distinct_nontrivial = distinct (rule count, diagram) and (inside/outside, shape, tag) outcomes that passed"
@@ -269,7 +271,7 @@ impl Prop for C16 {
             Scope::new("legend", "diagram x header x leading blanks x trailing blank lines x entry sequence", move |f| {
                 for dg in 0..3i64 {
                     for hd in 0..2i64 {
-                        for lead in 0..1i64 {
+                        for lead in 0..2i64 {
                             for tr in 0..3i64 {
                                 // sequences of length 0..maxseq
                                 let mut seqs: Vec<Vec<i64>> = vec![vec![]];
